@@ -215,6 +215,22 @@ def drivers():
         r = Mandoline(p["A"], fields=["u", "grid_level"], serial=serial, verbose=0).slice(normal=2, pos=pos, fformat="return")
         return [(k, harr(r[k])) for k in sorted(r) if isinstance(r[k], np.ndarray)]
 
+    @reg("mandoline.return.gap", serial=True)
+    def _(p, out, serial):
+        # a plane between the last cell centres of the first level-0 box and its face: the neighbouring box supplies one side
+        from amr_kitchen.mandoline import Mandoline
+        cfg_ = p["cfg"]
+        pos = cfg_.origin[0] + cfg_.dx0[0] * 1.8
+        r = Mandoline(p["A"], fields=["w", "u", "grid_level"], serial=serial, verbose=0).slice(normal=0, pos=pos, fformat="return")
+        return [(k, harr(r[k])) for k in sorted(r) if isinstance(r[k], np.ndarray)]
+
+    @reg("mandoline.plotfile.gap", serial=True)
+    def _(p, out, serial):
+        from amr_kitchen.mandoline import Mandoline
+        cfg_ = p["cfg"]
+        pos = cfg_.origin[0] + cfg_.dx0[0] * 2.2
+        Mandoline(p["A"], fields=["u", "v"], serial=serial, verbose=0).slice(normal=0, pos=pos, outfile=out, fformat="plotfile")
+
     @reg("mandoline.array", serial=True)
     def _(p, out, serial):
         from amr_kitchen.mandoline import Mandoline
@@ -344,7 +360,7 @@ def real_pool_phase(chk, D, names, refs):
 def _nopaths(x):
     import re
     if isinstance(x, str):
-        return re.sub(r"/[^ '\n]*/(bad_[a-z]+/)", r"<dir>/\1", x)
+        return re.sub(r"/\S*verif_[^/]*/[^/]*/(bad_[a-z]+/)", r"<dir>/\1", x)
     if isinstance(x, list):
         return [_nopaths(v) for v in x]
     if isinstance(x, dict):
